@@ -232,12 +232,12 @@ The import side of term parameters, regenerated from the current source (`Gen/Co
 translated code works on the parameter *text*; the importer model (`numsOf`, `parseShape`, `configure`) on its *tokens*
 `Py.FllIn.toks rd parameters` = the words of the text (`parameters.split()`), a word being a number token `.n x` where
 the reader `rd` (`to_float`, i.e. CPython's `float(text)`) reads `x` and a word token otherwise.  `rd` is a parameter:
-the theorems hold for every reader; the text layer of the driver uses `Dec.parse` (`tokens_are_lexer_tokens`).
+the theorems hold for every reader; the text layer of the driver uses `parseNum` (`tokens_are_lexer_tokens`).
 All failures of these functions are `ValueError`s, as the model says (`Err.value`). -/
 
-/-- with `Dec.parse` as the reader the tokens are the tokens the lexer of the text layer makes of the words -/
+/-- with `parseNum` as the reader the tokens are the tokens the lexer of the text layer makes of the words -/
 theorem tokens_are_lexer_tokens (parameters : String) :
-    Py.FllIn.toks Dec.parse parameters = (Py.split parameters).map numTokOf := rfl
+    Py.FllIn.toks parseNum parameters = (Py.split parameters).map numTokOf := rfl
 
 /-- `Term._parse(required, parameters, height=…)`: the values and the count check of `parseShape`; the list returned is
     the parameters followed by the height (1 when it is optional and absent) -/
